@@ -332,58 +332,12 @@ namespace smt
         }
     }
 
-    SMT_EXPORT std::pair<I, I> idl_theory::distance(const lin &from, const lin &to) const
-    {
-        lin expr = from - to;
-        switch (expr.vars.size())
-        {
-        case 0:
-            return std::make_pair(expr.known_term.numerator(), expr.known_term.numerator());
-        case 1:
-        {
-            expr = expr / expr.vars.cbegin()->second;
-            if (!is_integer(expr.known_term))
-                throw std::invalid_argument("not a valid integer difference logic constraint..");
-            return distance(expr.vars.cbegin()->first, 0);
-        }
-        case 2:
-        {
-            expr = expr / expr.vars.cbegin()->second;
-            auto it = expr.vars.cbegin();
-            const auto [v0, c0] = *it++;
-            assert(c0 == rational::ONE);
-            const auto [v1, c1] = *it;
-            if (c1 != -rational::ONE || !is_integer(expr.known_term))
-                throw std::invalid_argument("not a valid real difference logic constraint..");
-            return distance(v0, v1);
-        }
-        default:
-            throw std::invalid_argument("not a valid real difference logic constraint..");
-        }
-    }
+    SMT_EXPORT std::pair<I, I> idl_theory::distance(const lin &from, const lin &to) const { return bounds(to - from); } // the bounds of 'to - from'..
 
     SMT_EXPORT bool idl_theory::equates(const lin &l0, const lin &l1) const
-    {
-        if (l0.vars.empty() && l1.vars.empty())
-            return l0.known_term == l1.known_term;
-        else if (l0.vars.empty() && l1.vars.size() == 1)
-        {
-            const auto [lb, ub] = bounds(l1);
-            return rational(lb) <= l0.known_term && rational(ub) >= l0.known_term;
-        }
-        else if (l0.vars.size() == 1 && l1.vars.empty())
-        {
-            const auto [lb, ub] = bounds(l0);
-            return rational(lb) <= l1.known_term && rational(ub) >= l1.known_term;
-        }
-        else if (l0.vars.size() == 1 && l1.vars.size() == 1)
-        {
-            const auto [lb, ub] = distance(l0.vars.cbegin()->first, l1.vars.cbegin()->first);
-            const auto kt = l0.known_term - l1.known_term;
-            return lb + kt <= rational::ZERO && ub + kt >= rational::ZERO;
-        }
-        else
-            throw std::invalid_argument("not a valid comparison between real difference logic expressions..");
+    { // the two expressions can be equal iff zero is within the bounds of their difference..
+        const auto [lb, ub] = bounds(l0 - l1);
+        return lb <= 0 && ub >= 0;
     }
 
     bool idl_theory::propagate(const lit &p) noexcept
